@@ -58,25 +58,29 @@ DSPEC = {   # letter -> molecule name, start atoms, end atoms
           _atoms('G', 'RAA', 3) + _atoms('H', 'RAB', 4, 2)),
     'T': ('TMOL', _atoms('K', 'TCG', 2), None),                 # start topology only
     'X': ('XMOL', _atoms('L', 'XCG', 2), _atoms('M', 'XAA', 4)),  # not in the system
+    # start topology only; its SECOND residue is of the kind R's first residue has (name RCA, one atom) and it stands
+    # before the first R in the system: the first free RCA residue of the file is not the start of an R molecule
+    'V': ('VMOL', _atoms('V', 'VCX', 2) + _atoms('E', 'RCA', 1, 2), None),
     'W': ('W', [('W', 'W', 1)], None),                          # solvent, no files
     # start topology whose residue signature (name, size) equals P's but whose atom names differ:
     # it matches no molecule of the system and must not disturb the discovery of P
     'Z': ('ZMOL', _atoms('Z', 'PCG', 2), None),
 }
 DISCOVERABLE = ('P', 'Q', 'R')
+DIR_SPECIES = ('P', 'Q')          # the species of the one-directory-per-species layout
 # file-name stem per species letter: R's files carry a version tag, i.e. a SECOND dot in the base name (R.v2_cg.itp)
 STEM = {'R': 'R.v2'}
 
 
 def fname(s, suffix):
     return STEM.get(s, s) + suffix
-SYSTEM_SEQ = ('P', 'W', 'Q', 'R', 'T', 'P', 'Q', 'W', 'R', 'T', 'W')
+SYSTEM_SEQ = ('P', 'W', 'Q', 'V', 'R', 'T', 'P', 'Q', 'W', 'R', 'V', 'T', 'W')
 TRUTH = {DSPEC[s][0]: {'top_CG': fname(s, '_cg.itp'), 'top_AA': fname(s, '_aa.itp'), 'coor_AA': fname(s, '_aa.gro')}
          for s in DISCOVERABLE}
 VARIANTS = {
     # every candidate a user would get from `--auto dir/*`
     'B': ['P_aa.gro', 'P_aa.itp', 'P_cg.itp', 'P_one_cg.gro', 'Q_aa.gro', 'Q_aa.itp', 'Q_cg.itp',
-          'R.v2_aa.gro', 'R.v2_aa.itp', 'R.v2_cg.itp', 'T_cg.itp', 'X_aa.gro', 'X_aa.itp', 'X_cg.itp', 'Z_cg.itp',
+          'R.v2_aa.gro', 'R.v2_aa.itp', 'R.v2_cg.itp', 'T_cg.itp', 'V_cg.itp', 'X_aa.gro', 'X_aa.itp', 'X_cg.itp', 'Z_cg.itp',
           'bad.gro', 'notes.txt', 'sys.gro', 'P_old.Itp', 'Q_backup.Gro', 'A_two_P_aa.gro'],
     # six files: one species, an orphan coordinate file, the start-only species, a malformed file
     'S': ['P_aa.gro', 'P_aa.itp', 'P_cg.itp', 'Q_aa.gro', 'T_cg.itp', 'bad.gro'],
@@ -124,7 +128,7 @@ def write_directory(d, seed, bad='count_too_big'):
     recs, resid, aid = [], 0, 0
     for k, s in enumerate(SYSTEM_SEQ):
         cg = DSPEC[s][1]
-        pts = generic_points(len(cg), seed, tag=320 + 'PQRTXWZ'.index(s)) * 0.4 + \
+        pts = generic_points(len(cg), seed, tag=320 + 'PQRTXWZV'.index(s)) * 0.4 + \
             np.array([0.8 + 0.55 * k, 1.1 + 0.31 * k, 0.9 + 0.43 * k])
         last = None
         for (an, rn, ri), p in zip(cg, pts):
@@ -475,6 +479,16 @@ class C20(Check):
                         if E:
                             cs.append({'k': 'main', 'E': list(E), 'X': list(X), 'kmax': kmax, 'spell': 1})
                 u.append({'k': 'main', 'cases': cs})
+        # one directory per species, the three files called the same in each (P/cg.itp, Q/cg.itp, ...): every subset given
+        # explicitly, every order of the candidate list
+        dcs = []
+        for r in range(len(DIR_SPECIES) + 1):
+            for E in itertools.combinations(DIR_SPECIES, r):
+                for perm in (range(720) if thorough else range(0, 720, 30)):
+                    dcs.append({'k': 'dirs', 'E': list(E), 'perm': perm})
+        self.bounds['per_species_directories'] = {'species': list(DIR_SPECIES), 'explicit_subsets': 4,
+                                                               'listing_orders': 720 if thorough else 24}
+        u.append({'k': 'dirs', 'cases': dcs})
         if thorough:
             for hs in (0, 1, 2):
                 u.append({'k': 'hashseed', 'cases': [{'k': 'hashseed', 'hashseed': hs, 'E': E}
@@ -615,6 +629,66 @@ class C20(Check):
                     R.violation('cli/output-differs-from-library', case,
                                 f'{len(a)} vs {len(b)} lines; first difference at line {first + 1}: '
                                 f'{a[first:first + 1]} vs {b[first:first + 1]}')
+
+    def _dirs(self, case, R, seed):
+        """Discovery in a layout with one directory per species whose files carry the same base names."""
+        import gaddlemaps._cli as cli
+        E = case['E']
+        cwd = os.getcwd()
+        with Scratch() as d:
+            def put(name, text):
+                os.makedirs(os.path.dirname(os.path.join(d, name)), exist_ok=True)
+                with open(os.path.join(d, name), 'w') as fh:
+                    fh.write(text)
+            files = []
+            for i, sp in enumerate(DIR_SPECIES):
+                name, cg, aa = DSPEC[sp]
+                put(f'{sp}/cg.itp', itp_text(name, cg, _chain(len(cg))))
+                put(f'{sp}/aa.itp', itp_text(name, aa, _chain(len(aa))))
+                pts = generic_points(len(aa), seed, tag=300 + i) * 0.4 + 2.0
+                put(f'{sp}/aa.gro', gro_text([(ri, rn, an, j + 1, pts[j]) for j, (an, rn, ri) in enumerate(aa)],
+                                             title=f'{name} end resolution'))
+                files += [f'{sp}/cg.itp', f'{sp}/aa.gro', f'{sp}/aa.itp']
+            recs, resid, aid = [], 0, 0
+            for k, sp in enumerate(('P', 'W', 'Q', 'P', 'Q', 'W')):
+                cg = DSPEC[sp][1]
+                pts = generic_points(len(cg), seed, tag=320 + 'PQRTXWZV'.index(sp)) * 0.4 + \
+                    np.array([0.8 + 0.55 * k, 1.1 + 0.31 * k, 0.9 + 0.43 * k])
+                resid += 1
+                for (an, rn, ri), pnt in zip(cg, pts):
+                    aid += 1
+                    recs.append((resid, rn, an, aid, pnt))
+            put('sys.gro', gro_text(recs, title='per-species directories', box=(9.0, 9.0, 9.0)))
+            listing = nth_permutation(files, case['perm'] % math.factorial(len(files)))
+            known = [[f'{sp}/cg.itp', f'{sp}/aa.gro', f'{sp}/aa.itp'] for sp in E]
+            os.chdir(d)
+            try:
+                with quiet_stdout():
+                    res = cli.sort_molecules('sys.gro', listing + ['sys.gro'], known)
+                err = None
+            except Exception as exc:
+                res, err = None, exc
+            finally:
+                os.chdir(cwd)
+        cls = f'dirs/explicit{len(E)}'
+        if err is not None:
+            R.case(case, nontrivial=False, cls=cls, outcome='raised')
+            R.violation(f'discovery/per-species-directories/exception/{type(err).__name__}', case, repr(err)[:300])
+            return
+        got = {k: dict(v) for k, v in res.items()}
+        R.case(case, nontrivial=len(E) < len(DIR_SPECIES), cls=cls, outcome=f'found:{len(got)}')
+        for sp in DIR_SPECIES:
+            name = DSPEC[sp][0]
+            want = {'top_CG': f'{sp}/cg.itp', 'coor_AA': f'{sp}/aa.gro', 'top_AA': f'{sp}/aa.itp'}
+            ent = got.get(name)
+            if sp in E:
+                if ent is not None and len(ent) == 3:
+                    R.violation('discovery/per-species-directories/explicit-species-added-again', case, f'{name}: {ent}')
+                    return
+            elif ent != want:
+                R.violation('discovery/per-species-directories/wrong-or-missing-triple', case,
+                            f'{name}: got {ent}, expected {want}')
+                return
 
     # -- (b) helpers ---------------------------------------------------------
     _spell = None        # './' : explicit files are named by another spelling of the same path
